@@ -144,6 +144,12 @@ func runEvmTx(r *hx.R, n int, w *hx.W, _ []string) error {
 			_ = testapp.FundAccount(a.BankKeeper, ctx, acc.NibiruAddr, sdk.NewCoins(sdk.NewInt64Coin("unibi", 5_000_000_000_000)))
 		}
 		_ = testapp.FundModuleAccount(a.BankKeeper, ctx, authtypes.FeeCollectorName, sdk.NewCoins(sdk.NewInt64Coin("unibi", 1_000_000_000_000)))
+		// the fourth account only receives: it is a plain BaseAccount (as genesis / pre-EVM accounts are, not an EthAccount) with a
+		// signing history — its sequence must survive being touched by other people's EVM transactions
+		base := authtypes.NewBaseAccountWithAddress(accs[3].NibiruAddr)
+		base.AccountNumber = a.AccountKeeper.NextAccountNumber(ctx)
+		_ = base.SetSequence(7)
+		a.AccountKeeper.SetAccount(ctx, base)
 		// deploy helper contracts through the msg server (genesis block)
 		deps := evmtest.TestDeps{App: a, Ctx: ctx, EvmKeeper: a.EvmKeeper, Sender: accs[0]}
 		nonce := a.EvmKeeper.GetAccNonce(ctx, accs[0].EthAddr)
